@@ -73,6 +73,23 @@ theorem bitStrings_eq (n : Nat) : bitStrings n = (List.range (2 ^ n)).map (bitVe
   intro i
   simp [bitVec]
 
+/-- every choice of bits below `n` is the binary expansion of some `j < 2^n` -/
+theorem exists_testBit (f : Nat → Bool) (n : Nat) : ∃ j, j < 2 ^ n ∧ ∀ i, i < n → j.testBit i = f i := by
+  induction n with
+  | zero => exact ⟨0, by simp, fun i hi => absurd hi (Nat.not_lt_zero i)⟩
+  | succ n ih =>
+    obtain ⟨j, hj, hb⟩ := ih
+    cases hf : f n
+    · refine ⟨j, by rw [Nat.pow_succ]; omega, fun i hi => ?_⟩
+      by_cases h : i = n
+      · rw [h, hf]; exact Nat.testBit_lt_two_pow hj
+      · exact hb i (by omega)
+    · refine ⟨2 ^ n + j, by rw [Nat.pow_succ]; omega, fun i hi => ?_⟩
+      by_cases h : i = n
+      · rw [h, hf, Nat.testBit_two_pow_add_eq, Nat.testBit_lt_two_pow hj]; rfl
+      · rw [Nat.testBit_two_pow_add_gt (by omega)]
+        exact hb i (by omega)
+
 /-! ### lexicographic order -/
 
 theorem lexLt_irrefl (l : List Int) : lexLt l l = false := by
